@@ -79,7 +79,7 @@ func (c *FnCtx) execCallWith(bc *blockCtx, cc *ssa.CallCommon, fnVal Val, args [
 	default:
 		spec = c.funcValueSpec(cc, fnVal)
 	}
-	if spec != nil && !spec.Inline {
+	if spec != nil && !spec.Inline && !(spec.annotationOnly() && callee != nil && len(callee.Blocks) > 0 && c.canInline(callee, bc.fr)) {
 		return c.applyContract(bc, spec, cc, callee, name, args, pos)
 	}
 	if callee != nil && len(callee.Blocks) > 0 && callee.Pkg != nil && strings.HasPrefix(callee.Pkg.Pkg.Path(), c.eng.modPath) {
@@ -103,6 +103,7 @@ func (c *FnCtx) havocAll(bc *blockCtx, cc *ssa.CallCommon, name string) Val {
 		}
 		c.heapHavoc(bc.st, n, s)
 	}
+	bc.st.wild = append(bc.st.wild, "")
 	na := c.sc.fresh("alloc", "Int")
 	c.sc.assert("(>= " + na + " " + bc.st.alloc + ")")
 	bc.st.alloc = na
